@@ -17,7 +17,7 @@ ASSUME = ["exact part: InvCovValid (symmetric, all principal minors >= 0, exact 
           "rounding part: TLC only checks the protocol CovGate (valid_in => not refused and valid_out); validity is decided by the projection: "
           "symmetric within 1e-9*s and lambda_min >= -1e-9*s (numpy eigvalsh) with s = |P| for inputs (strict) and s = the largest covariance "
           "magnitude seen so far in the history for outputs (rounding is relative to the operands) -- TLC has no floating point (DESIGN 6)",
-          "histories are bounded and well conditioned: start covariances have magnitude 1e-3 .. 1e8 with noises scaled alike (prior-to-noise ratio <= ~1e4); a history ends when |x| > 1e8 or |P| exceeds 1e4 times the start magnitude"]
+          "histories are bounded and well conditioned: start covariances have magnitude 1e-9 .. 1e8 with noises scaled alike (prior-to-noise ratio <= ~1e4); a history ends when |x| > 1e8 or |P| exceeds 1e4 times the start magnitude"]
 
 
 def valid_cov(P, ref=0.0):
@@ -28,7 +28,7 @@ def valid_cov(P, ref=0.0):
     P = np.asarray(P, dtype=float)
     if not np.all(np.isfinite(P)):
         return False
-    scale = max(1.0, float(np.max(np.abs(P))), ref) if P.size else 1.0
+    scale = max(1e-300, float(np.max(np.abs(P))), ref) if P.size else 1.0      # relative to the covariance's own magnitude: no floor
     if np.max(np.abs(P - P.T), initial=0.0) > 1e-9 * scale:
         return False
     lam = np.linalg.eigvalsh((P + P.T) / 2.0) if P.size else np.array([0.0])
@@ -78,7 +78,7 @@ def run_history(mods, job):
     # magnitudes from 1e-3 to 1e8 ("bounded" covariances include large ones, e.g. positions in m^2 far from the origin) with
     # BOUNDED CONDITIONING: the noises scale with the covariance, so prior-to-noise ratios stay within ~1e4 and the rounding
     # error of the standard update form P - K H P stays many orders below the validity tolerance
-    mag = float(10.0 ** rng.integers(-3, 9))
+    mag = float(10.0 ** rng.integers(-9, 9))
     if job.get("scale_noise", True):
         pn = {k: v * mag for k, v in pn.items()}
         sn = {k: {r: v * mag for r, v in m.items()} for k, m in sn.items()}
